@@ -46,6 +46,7 @@ import (
 	"github.com/bufbuild/buf/private/bufpkg/bufmodule/bufmodulecache"
 	"github.com/bufbuild/buf/private/bufpkg/bufmodule/bufmodulestore"
 	"github.com/bufbuild/buf/private/pkg/filelock"
+	"github.com/bufbuild/buf/private/pkg/storage"
 	"github.com/bufbuild/buf/private/pkg/storage/storageos"
 	"github.com/bufbuild/buf/private/pkg/thread"
 	"github.com/bufbuild/bufverif/internal/evid"
@@ -95,6 +96,7 @@ type c09Case struct {
 	Module      faultx.ModuleSpec `json:"module"`
 	Tar         bool              `json:"tar"`
 	RealLocker  bool              `json:"real_locker"`
+	DepsFirst   bool              `json:"deps_first"`
 	ViaProvider bool              `json:"via_provider"`
 	Draws       []int             `json:"draws"` // pre-drawn numbers for offsets / pair sampling
 	Steps       []step            `json:"steps,omitempty"`
@@ -115,6 +117,7 @@ func genC09Case(t *rapid.T) c09Case {
 		Tar:         rapid.Bool().Draw(t, "tar"),
 		RealLocker:  rapid.IntRange(0, 2).Draw(t, "reallocker") == 0,
 		ViaProvider: rapid.IntRange(0, 2).Draw(t, "provider") == 0,
+		DepsFirst:   rapid.Bool().Draw(t, "depsfirst"),
 	}
 	c.Draws = rapid.SliceOfN(rapid.IntRange(0, 1<<30), 64, 64).Draw(t, "draws")
 	return c
@@ -132,6 +135,8 @@ type refData struct {
 	digest string
 	deps   []string // "name commit digest", sorted
 	hashes *faultx.HashCache
+	// depsFirst: call DepModuleKeys() and the side object accessors before Bucket()
+	depsFirst bool
 }
 
 func newRef(ctx context.Context, spec faultx.ModuleSpec) (*refData, error) {
@@ -195,8 +200,50 @@ func inspect(ctx context.Context, ref *refData, md bufmodule.ModuleData, tampere
 			errOutcome, errDetail = o, what+": "+firstLine(err.Error())
 		}
 	}
+	// Call every accessor first, in the order drawn for the case: the dependency keys and the
+	// side objects before the bucket in half of the cases (callers that resolve the dependency
+	// graph look at DepModuleKeys() before or without Bucket()). Each result is then judged by
+	// the same oracle.
+	var (
+		bucket                 storage.ReadBucket
+		depKeys                []bufmodule.ModuleKey
+		yamlObj, lockObj       bufmodule.ObjectData
+		bErr, dErr, yErr, lErr error
+	)
+	getBucket := func() { bucket, bErr = md.Bucket() }
+	getRest := func() {
+		depKeys, dErr = md.DepModuleKeys()
+		yamlObj, yErr = md.V1Beta1OrV1BufYAMLObjectData()
+		lockObj, lErr = md.V1Beta1OrV1BufLockObjectData()
+	}
+	if ref.depsFirst {
+		getRest()
+		getBucket()
+	} else {
+		getBucket()
+		getRest()
+	}
+	// A digest mismatch is never accepted silently: if one accessor reports it, no other
+	// accessor may hand out content of the same entry without an error.
+	{
+		names := []string{"Bucket()", "DepModuleKeys()", "V1Beta1OrV1BufYAMLObjectData()", "V1Beta1OrV1BufLockObjectData()"}
+		errs := []error{bErr, dErr, yErr, lErr}
+		mismatch, silent := "", ""
+		for i, e := range errs {
+			var dm *bufmodule.DigestMismatchError
+			if e != nil && errors.As(e, &dm) && mismatch == "" {
+				mismatch = names[i]
+			}
+			if e == nil && silent == "" {
+				silent = names[i]
+			}
+		}
+		if mismatch != "" && silent != "" {
+			return outHitWrong, fmt.Sprintf("%s reports a digest mismatch for the entry, but %s returned its content without an error (accessor order: deps first = %v)", mismatch, silent, ref.depsFirst)
+		}
+	}
 	var files map[string][]byte
-	bucket, err := md.Bucket()
+	err := bErr
 	if err != nil {
 		accErr("Bucket()", err)
 	} else if files, err = faultx.ReadAll(ctx, bucket); err != nil {
@@ -221,8 +268,7 @@ func inspect(ctx context.Context, ref *refData, md bufmodule.ModuleData, tampere
 	}
 	depsOK, sideOK := false, true
 	var depDigests, deps []string
-	depKeys, err := md.DepModuleKeys()
-	if err != nil {
+	if err = dErr; err != nil {
 		accErr("DepModuleKeys()", err)
 	} else {
 		depsOK = true
@@ -240,15 +286,13 @@ func inspect(ctx context.Context, ref *refData, md bufmodule.ModuleData, tampere
 		}
 	}
 	side := map[string][]byte{}
-	yamlObj, err := md.V1Beta1OrV1BufYAMLObjectData()
-	if err != nil {
+	if err = yErr; err != nil {
 		sideOK = false
 		accErr("V1Beta1OrV1BufYAMLObjectData()", err)
 	} else if yamlObj != nil {
 		side[yamlObj.Name()] = yamlObj.Data()
 	}
-	lockObj, err := md.V1Beta1OrV1BufLockObjectData()
-	if err != nil {
+	if err = lErr; err != nil {
 		sideOK = false
 		accErr("V1Beta1OrV1BufLockObjectData()", err)
 	} else if lockObj != nil {
@@ -851,6 +895,7 @@ func sweepCase(ctx context.Context, c c09Case, st *caseStats, fail func(key, msg
 	if err != nil {
 		return err
 	}
+	ref.depsFirst = c.DepsFirst
 	events, entry, lv, err := learn(ctx, c, ref)
 	if err != nil {
 		return err
@@ -1112,6 +1157,11 @@ func TestStoreHistories(t *testing.T) {
 		} else {
 			r.Class("locker:nop")
 		}
+		if c.DepsFirst {
+			r.Class("accessor-order:deps-and-side-objects-before-bucket")
+		} else {
+			r.Class("accessor-order:bucket-first")
+		}
 		if c.ViaProvider {
 			r.Class("via:bufmodulecache-provider")
 		} else {
@@ -1165,6 +1215,7 @@ func TestReplay(t *testing.T) {
 	if err != nil {
 		t.Fatalf("harness: %v", err)
 	}
+	ref.depsFirst = c.DepsFirst
 	v, _, err := runSteps(ctx, c, ref, c.Steps)
 	if err != nil {
 		t.Fatalf("harness: %v", err)
